@@ -294,3 +294,26 @@ def _outcome(j):
     if "err" in g:
         return ("gen", g["err"])
     return ("ok", "")
+
+
+def run_link_model(lines):
+    """lines: list of '(link id ...)' s-expressions -> id -> layout json"""
+    if not lines:
+        return {}
+    res = {}
+    def one(chunk):
+        proc = subprocess.run([DRIVER], input=("\n".join(chunk) + "\n").encode("utf-8"),
+                              stdout=subprocess.PIPE, stderr=subprocess.PIPE, timeout=3000,
+                              preexec_fn=_big_stack, env=dict(os.environ, OCAMLRUNPARAM="s=16M"))
+        if proc.returncode != 0:
+            raise RuntimeError("model driver failed: %s" % proc.stderr.decode()[-2000:])
+        out = {}
+        for line in proc.stdout.decode("utf-8", "replace").split("\n"):
+            if line:
+                k, _, v = line.partition("\t")
+                out[k] = json.loads(v)
+        return out
+    with ThreadPoolExecutor(max_workers=NPROC) as ex:
+        for r in ex.map(one, _chunks(lines, NPROC)):
+            res.update(r)
+    return res
